@@ -40,13 +40,14 @@ type Round struct {
 }
 
 type Case struct {
-	Mode    string   `json:"mode"` // seq | conc | cli
-	Seed    uint64   `json:"seed"`
-	Chain   *Node    `json:"chain,omitempty"`
-	Ops     []Op     `json:"ops,omitempty"`     // seq
-	Rounds  []Round  `json:"rounds,omitempty"`  // conc
-	Perturb []int    `json:"perturb,omitempty"` // conc: yields/sleeps consumed at failover.selected / swap.locked
-	CLI     *CLICase `json:"cli,omitempty"`     // cli: the chain is built by the command itself (cli_test.go)
+	Mode    string    `json:"mode"` // seq | conc | cli | race
+	Seed    uint64    `json:"seed"`
+	Chain   *Node     `json:"chain,omitempty"`
+	Ops     []Op      `json:"ops,omitempty"`     // seq
+	Rounds  []Round   `json:"rounds,omitempty"`  // conc
+	Perturb []int     `json:"perturb,omitempty"` // conc: yields/sleeps consumed at failover.selected / swap.locked
+	CLI     *CLICase  `json:"cli,omitempty"`     // cli: the chain is built by the command itself (cli_test.go)
+	Race    *RaceCase `json:"race,omitempty"`    // race: failover group of 3..5 members, all but one failing, concurrent requests (race_test.go)
 }
 
 // ---------------------------------------------------------------- generators
@@ -287,6 +288,11 @@ func genCase(t *rapid.T) Case {
 	if cliDraw(&gctx{t: t}) {
 		c.Mode = "cli"
 		genCLI(t, &c)
+		return c
+	}
+	if (&gctx{t: t}).u(64, "race") == 0 {
+		c.Mode = "race"
+		genRace(t, &c)
 		return c
 	}
 	if (&gctx{t: t}).pct(22, "conc") {
@@ -659,6 +665,11 @@ func run(c Case) (o hx.Outcome) {
 		runCLI(c, &o)
 		return o
 	}
+	if c.Mode == "race" {
+		defer func() { desync.VerifHook = nil }()
+		runRace(c, &o)
+		return o
+	}
 	if !c.Chain.sane() {
 		o.Desc = map[string]any{"mode": c.Mode, "shape": "unbuildable"}
 		o.Class("unbuildable-spec")
@@ -742,6 +753,7 @@ var spec = &hx.Spec[Case]{
 		"fault:down", "fault:fail-at-k", "fault:invalid",
 		"ev:failover-advance", "ev:failover-exhausted", "ev:failover-missing-as-is", "ev:cache-fill", "ev:cache-hit", "ev:cache-repair", "ev:cache-invalid-fails",
 		"ev:router-fallthrough", "ev:router-abort", "ev:swap", "swap:refused", "request-after-refused-swap",
+		"mode:race", "failover:3+members:2+down:concurrent", "failover:3+members:2+down:barrier", "race:requests-held-inside-failing-member",
 		"conc:failover-advance", "conc:swap-with-request-in-flight", "conc:globally-missing-id", "conc:request-with-expectation"},
 	Gen:      genCase,
 	Run:      run,
